@@ -100,6 +100,12 @@ def gen_codes(rng, thorough):
             for e in list(range(0, 135)) if (thorough or n < 2) else (0, EINTR, EAGAIN, EINVAL, EBUSY):
                 if not (r == -1 and e == EINTR):
                     out.append(f"semtry {n} {r} {e}")
+    for op in ("semwait", "sleep"):
+        for n in (0, 1, 2, 3, 7, 40):
+            for r in (0, -1, 1):
+                for e in list(range(0, 135)) if (thorough or n < 2) else (0, EINTR, EAGAIN, EINVAL, ETIMEDOUT):
+                    if not (r == -1 and e == EINTR):
+                        out.append(f"{op} {n} {r} {e}")
     out += [f"barrier {c}" for c in codes]
     for c in codes:
         out.append(f"timedwait {rng.below(1000)} {rng.below(NS)} {rng.below(1 << 40)} {c}")
@@ -177,6 +183,18 @@ def scripted_monitor(cmd, o):
         if r == -1 and e == EAGAIN and ow[:2] != ["ret", str(-EAGAIN)]:
             return ("sem-trywait-zero-not-eagain", f"sem_trywait said EAGAIN (count zero) after {n} EINTR, uv_sem_trywait gave `{o}`")
         return None
+    if w[0] in ("semwait", "sleep"):
+        n, r, e = int(w[1]), int(w[2]), int(w[3])
+        name = "uv_sem_wait" if w[0] == "semwait" else "uv_sleep"
+        call = "sem_wait" if w[0] == "semwait" else "nanosleep"
+        if ow[0] == "ret" and (r != 0 or int(ow[3]) != n + 1):
+            # the wrapper returned although no platform call had succeeded yet
+            return ("wait-returned-without-token" if w[0] == "semwait" else "sleep-returned-early",
+                    f"{name} returned after {ow[3]} {call} call(s) although {call} answered EINTR {n} time(s) and then r={r} errno={e}: "
+                    f"it came back without a successful {call}")
+        if r == 0 and ow[0] != "ret":
+            return ("wait-abort-on-success", f"{call} succeeded after {n} EINTR, {name} did `{o}`")
+        return None
     if w[0] == "timedwait":
         sec, nsec, t, rc = map(int, w[1:])
         if ow[0] != "deadline":
@@ -230,7 +248,7 @@ def nontrivial_key(cmd, o):
         return None
     if w[0] == "timedwait":
         return f"tw/{w[1]}/{w[2]}/{w[3]}" if int(w[3]) % NS else None
-    return "code/" + "/".join(w[:1] + w[1:-1] + [w[-1]]) if w[0] != "semtry" else "code/" + cmd.replace(" ", "/")
+    return "code/" + cmd.replace(" ", "/")
 
 
 def run_scripted(ctx, sexe, lines, label, diff=True):
@@ -341,6 +359,19 @@ def real_monitor(cmd, outs):
             d = kv(outs[0], 1)
             if int(d["foreign_value_seen"]) or int(d["initial_nonnull"]) or d["main_kept"] != "1":
                 bad.append(("key-not-private", outs[0]))
+        elif what.endswith("-intr"):
+            if not need(1): return bad
+            d = kv(outs[0], 1)
+            if int(d["through_before"]) != 0:
+                bad.append(("wait-returned-without-token",
+                            f"{what}: {d['through_before']} of {d['waiters']} threads blocked in uv_{what[:-5]}_wait/lock got through after "
+                            f"{d['handled']} non-SA_RESTART signals, before any post/unlock/broadcast: {outs[0]}"))
+            if d["through_after"] != d["waiters"]:
+                bad.append(("intr-waiter-lost", outs[0]))
+            if what == "sem-intr" and d["extra"] != str(-EAGAIN):
+                bad.append(("sem-count", f"surplus token after interrupted waits: {outs[0]}"))
+            if what != "sem-intr" and int(d["extra"]) > 1:
+                bad.append(("mutex-exclusion", outs[0]))
         elif what.startswith("cond-"):
             if not need(1): return bad
             d = kv(outs[0], 1)
@@ -408,7 +439,7 @@ def run_real(ctx, rexe, lines, label, env=None, timeout=None):
         for sig, msg in real_monitor(cmd, os_):
             ctx.violation(sig, f"C20 ({label}): {msg}", {"mode": "real", "line": cmd})
             ok = False
-        if ok:
+        if ok and not ("-intr" in cmd and " handled 0 " in os_[0]):   # no signal delivered = vacuous
             ctx.nontrivial("real/" + cmd)
     if rc != 0:
         ctx.violation("real-harness-sanitizer", f"C20 ({label}): harness exited {rc}: {err[-900:]}", {"mode": "real", "line": lines[-1]})
@@ -422,6 +453,8 @@ def real_program(rng, nt, rounds, reps):
         for what, div in (("mutex", 1), ("rmutex", 2), ("rwlock", 1), ("sem", 2), ("barrier", 4), ("once", 8), ("key", 2),
                           ("cond-signal", 1), ("cond-broadcast", 1)):
             L.append(f"contend {what} {rng.range(2, nt)} {max(1, rounds // div)}")
+        for what in ("sem-intr", "mutex-intr", "cond-intr"):
+            L.append(f"contend {what} {rng.range(2, min(nt, 8))} {rng.range(3, 6)}")
     for t in (0, 1, 999, 10 ** 6, 3 * 10 ** 6 + rng.below(10 ** 6), 2 * 10 ** 7):
         L.append(f"timedwait {t}")
     return L
@@ -540,7 +573,7 @@ def run(ctx):
                 L += gen_stack(srng, 4000)
             if "timedwait" in ops:
                 L += gen_timedwait(srng, 4000)
-            if ops - {"stack", "timedwait"}:
+            if ops - {"stack", "timedwait", "dflt-real"}:
                 L += gen_codes(srng, True)
             n += len(L)
             run_scripted(ctx, sexe, L, "search", diff=False)
